@@ -268,6 +268,14 @@ def execute(seed, nwin=6, sessions=("A", "B", "C"), p_fifo=0.6):
         d.emit = lambda *a, **k: {"i": 0}     # observation points only stamp; no trace here
         d.admits = []
 
+        import asimap.mbox as _mbx
+        d.sched = []
+
+        def sched_rec(c):
+            return {"k": str(getattr(c.command, "name", c.command)).upper(),
+                    "peek": bool(getattr(c, "fetch_peek", True)),
+                    "nums": sorted(int(x) for x in (c.msg_set_as_set or []))}
+
         def on_admit(cmd, mbox):
             # what the command's message set was resolved to at the moment it starts running
             if cmd.msg_set is None or cmd.tag is None or not cmd.tag.startswith("T"):
@@ -283,6 +291,29 @@ def execute(seed, nwin=6, sessions=("A", "B", "C"), p_fifo=0.6):
                              "uids": list(mbox.uids),
                              "applied": sorted(cmd.msg_set_as_set) if cmd.msg_set_as_set else []})
         d._on_admit = on_admit
+        # every decision of the management task (Mailbox.would_conflict): the command asking, what is
+        # executing on the mailbox at that instant, whether it has \Deleted messages, and the answer
+        orig_wc = _mbx.Mailbox.would_conflict
+
+        def wc_wrapped(self, imap_cmd):
+            ans = orig_wc(self, imap_cmd)
+            try:
+                rec = sched_rec(imap_cmd)
+                if imap_cmd.msg_set:
+                    # what the command's set denotes right now (not what the code stored for it)
+                    try:
+                        rec["nums"] = sorted(int(x) for x in self.msg_set_to_msg_seq_set(imap_cmd.msg_set,
+                                                                                       imap_cmd.uid_command))
+                    except Exception:
+                        pass
+                rec.update(hasdel=bool(self.sequences.get("Deleted")), mbox=self.name, tag=str(imap_cmd.tag or ""),
+                           live=[sched_rec(x) for x in self.executing_tasks if x is not imap_cmd], ans=bool(ans))
+                d.sched.append(rec)
+            except Exception as e:          # an observation never disturbs the server
+                d.sched.append({"error": repr(e)})
+            return ans
+        _mbx.Mailbox.would_conflict = wc_wrapped
+        d._orig_wc = orig_wc
         # a slow disk: the APPEND named in d.slow holds its mailbox for that long (virtual time)
         d.slow = {}
         import asimap.mbox as _mb
@@ -299,6 +330,7 @@ def execute(seed, nwin=6, sessions=("A", "B", "C"), p_fifo=0.6):
             return await run_windows(d, rng, list(sessions), nwin, stats)
         finally:
             _mb.Mailbox.append = d._orig_append
+            _mbx.Mailbox.would_conflict = d._orig_wc
             d.uninstall()
             try:
                 await w.stop()
@@ -311,6 +343,7 @@ def execute(seed, nwin=6, sessions=("A", "B", "C"), p_fifo=0.6):
         except simloop.Deadlock:
             stats["deadlock"] = True
             wins = []
+        stats["sched"] = getattr(d, "sched", [])
         stats["choices"] = chooser.choices
         stats["deviations"] = chooser.deviations
         return wins, stats
